@@ -28,6 +28,13 @@ fn check(id: &str, tier: Tier) -> i32 {
                 props::c13::memory_stratum(seed, nmem, threads, cov, assume)
             }).exit
         }
+        "C06" => {
+            let n = ctx.runs(1_500, 45_000);
+            let threads = ctx.threads;
+            let kf = framework::load_known_findings(&ctx.verif_dir);
+            let open: Vec<framework::Finding> = kf.findings.iter().filter(|f| f.property == "C06" && f.status == "open").cloned().collect();
+            run_check(&props::c06::C06, &ctx, &[("programs", n)], move |cov, _| props::c06::process_stratum(threads, &open, cov)).exit
+        }
         "C19" => {
             let n = ctx.runs(3_000, 200_000);
             run_check(&props::c19::C19, &ctx, &[("programs", n)], |_, _| Vec::new()).exit
@@ -131,6 +138,7 @@ fn replay(path: &Path) -> i32 {
         "C08" => replay_main(&props::c08::C08, path),
         "C09" => replay_main(&props::c09::C09, path),
         "C19" => replay_main(&props::c19::C19, path),
+        "C06" => replay_main(&props::c06::C06, path),
         _ => {
             eprintln!("HARNESS-ERROR: replay file names unknown property {:?}", prop);
             2
@@ -240,6 +248,13 @@ fn main() {
                     2
                 }
             }
+        }
+        Some("c06-worker") => {
+            let name = args.get(2).cloned().unwrap_or_default();
+            let param: u64 = args.get(3).and_then(|s| s.parse().ok()).unwrap_or(0);
+            let stack: u64 = args.get(4).and_then(|s| s.parse().ok()).unwrap_or(8192);
+            props::c06::proc_worker(&name, param, stack);
+            0
         }
         Some("c13-worker") => {
             // worker side of the memory stratum: seed, from, to
